@@ -76,6 +76,13 @@ func verif_NewDispatcher(rw io.ReadWriter) {
 	verif.Ensures(verif.Same(d.rw, rw) && d.defaultHandler == nil && len(d.msgHandlers) == 0, "reads_the_given_stream_no_handlers_yet")
 }
 
+// VerifDispatcherOK: the dispatcher has been built by NewDispatcher.
+//
+//verif:pure
+func VerifDispatcherOK(d *Dispatcher) bool {
+	return d != nil && d.msgHandlers != nil && d.sendCh != nil && d.doneCh != nil
+}
+
 //verif:contract (*~/pkg/msg.Dispatcher).readLoop
 //verif:props C17 C16
 func verif_readLoop(d *Dispatcher) {
